@@ -543,7 +543,7 @@ def tabular_item(item, col):
     # step, AT THE CURRENT OBSERVATION (C13's tabular-loop oracle, re-labelled)
     from checks import c13
 
-    acting = [i for i in c13.items(item["tier"], item["seed"]) if i["kind"] == "tabloop" and i["algo"] == item["algo"]]
+    acting = [i for i in c13.items(item["tier"], item["seed"]) if i["kind"] == "tabloop" and i["algo"] == "train_" + item["algo"]]
     proxy2 = _Relabel(col, "acting-not-conditioned-on-the-current-observation:")
     for it in acting:
         c13.work(it, proxy2)
